@@ -23,7 +23,7 @@ import (
 )
 
 type vC01Cmd struct {
-	Op   string   `json:"op"`            // pin unpin other junk map disc conn snap hold release restart obs sync offline
+	Op   string   `json:"op"`            // pin unpin other junk map disc conn snap hold release restart obs sync offline reinstall
 	Node int      `json:"node"`          // relative to the current leader: 0 = leader, 1, 2 = the others in index order
 	Pin  *vC01Pin `json:"pin,omitempty"` // pin unpin other
 	T    int      `json:"t,omitempty"`   // LogOpType of "other" (3..9)
@@ -230,6 +230,38 @@ func vC01Gen(r *vRand) vC01Case {
 		if r.chance(30) {
 			c.Cmds = append(c.Cmds, vC01Cmd{Op: "offline", Node: 0})
 		}
+		return c
+	}
+	if r.chance(6) {
+		// backward-install shape: the leader snapshots, more entries are applied everywhere, and the leader's snapshot is
+		// delivered (again) to a follower that is ahead of it; the follower goes back to that prefix and applies the rest
+		// again with the next commit
+		c.N = 2 + r.intn(2)
+		f := 1 + r.intn(c.N-1)
+		for i := 0; i < 1+r.intn(3); i++ {
+			c.Cmds = append(c.Cmds, write())
+		}
+		c.Cmds = append(c.Cmds, vC01Cmd{Op: "sync"}, vC01Cmd{Op: "snap", Node: 0})
+		for i := 0; i < 1+r.intn(3); i++ {
+			c.Cmds = append(c.Cmds, write())
+		}
+		c.Cmds = append(c.Cmds, vC01Cmd{Op: "sync"})
+		if r.chance(35) {
+			// ... while the follower holds a requested-but-not-persisted snapshot of its own: that snapshot, labelled with
+			// the follower's position, is then written with the OLDER state (S23) and is the newest of its store
+			c.Trail = 4 // the compaction that follows the follower's own snapshot keeps the entries it has to apply again
+			c.Cmds = append(c.Cmds, vC01Cmd{Op: "hold", Node: f}, vC01Cmd{Op: "reinstall", Node: f}, vC01Cmd{Op: "release"},
+				vC01Cmd{Op: "offline", Node: -1}, vC01Cmd{Op: "restart", Node: -1})
+		} else {
+			c.Cmds = append(c.Cmds, vC01Cmd{Op: "reinstall", Node: f}, vC01Cmd{Op: "obs"})
+			if r.chance(30) {
+				c.Cmds = append(c.Cmds, vC01Cmd{Op: "reinstall", Node: f})
+			}
+		}
+		for i := 0; i < 1+r.intn(2); i++ {
+			c.Cmds = append(c.Cmds, write())
+		}
+		c.Cmds = append(c.Cmds, vC01Cmd{Op: "sync"})
 		return c
 	}
 	if r.chance(6) {
@@ -558,6 +590,16 @@ func vC01RunCase(c vC01Case) (res vC01Result) {
 						rig.quiesce(10 * time.Second)
 					}
 				}
+			case "reinstall":
+				if !rig.quorumPossible() {
+					return
+				}
+				l := rig.leader(3 * time.Second)
+				if l == nil {
+					return
+				}
+				f := rig.nodes[(l.idx+vC01Clamp(cmd.Node, c.N))%c.N]
+				res.stats["reinstall_"+rig.reinstall(l, f, heldNode == f.idx)]++
 			case "offline":
 				// OfflineState of a member's data (of every member when Node < 0). A snapshot of the member that is being
 				// written right now (requested, not held) would make the store and the trace disagree for a moment: the
@@ -745,12 +787,14 @@ func vC01Finalize(rig *vC01Rig, subs []vC01Submitted, nNodes int, res *vC01Resul
 	}
 	restores, restarts, installs := 0, 0, 0
 	live := map[int]bool{}
+	given := map[int]int{} // position of each replica in the trace: entries its FSM has been given
 	for _, e := range trace {
 		switch e.Kind {
 		case "apply":
 			commitUpTo(pos[e.Idx])
 			evs = append(evs, fmt.Sprintf("OApply %d %d", e.Node, pos[e.Idx]))
 			live[e.Node] = true
+			given[e.Node] = pos[e.Idx] + 1
 		case "crash":
 			commitUpTo(pos[e.Idx])
 			evs = append(evs, fmt.Sprintf("OCrash %d %d", e.Node, pos[e.Idx]))
@@ -771,6 +815,10 @@ func vC01Finalize(rig *vC01Rig, subs []vC01Submitted, nNodes int, res *vC01Resul
 						commitUpTo(lb - 1)
 					}
 					evs = append(evs, fmt.Sprintf("ORestore %d %d %d %d", e.Node, p.node, p.k, lb))
+					if lb < given[e.Node] {
+						res.stats["installs_backward"]++ // onto a replica that is ahead of the snapshot
+					}
+					given[e.Node] = lb
 					found = true
 					break
 				}
@@ -786,6 +834,7 @@ func vC01Finalize(rig *vC01Rig, subs []vC01Submitted, nNodes int, res *vC01Resul
 			evs = append(evs, fmt.Sprintf("ORestart %d", e.Node))
 			restarts++
 			live[e.Node] = false
+			given[e.Node] = 0
 		case "ack":
 			evs = append(evs, fmt.Sprintf("OAck %d %d", e.Cmd, e.Node))
 		case "obs":
